@@ -25,7 +25,7 @@ func addTarget(thorough bool, name string, rawQ, rawT int, run func(e *enc, in [
 	}
 	t.fams = rawFam(t, n)
 	for i := range t.encs {
-		t.fams = append(t.fams, altFam(t, &t.encs[i], 4096))
+		t.fams = append(t.fams, altFams(t, &t.encs[i], 4096)...)
 	}
 	targets = append(targets, t)
 	return t
